@@ -14,9 +14,15 @@ correspondence: (1) names: random (class name, parameter list) through the REAL 
                 and the instance order of every module; the scanned module table (c13_scan.py) goes through wfModules;
                 (3) labelled aliasing probes (c13_gen.ALIAS_STREAMS).
 direct oracle:  byte equality of the text across runs / seeds; one definition per module name, every instantiated module
-                defined, identifiers legal / not reserved / unique per module (c13_scan.direct_wf: regex + pymtl3's
-                reserved set); instances that share an emitted module name have identical STANDALONE translations
-                (each instance re-created from its class and arguments, translated as a top of its own).
+                defined, identifiers legal / not reserved / unique per module (c13_scan.direct_wf: regex fullmatch +
+                pymtl3's reserved set), also on the names the translator chose (before any text is scanned);
+                instances that share an emitted module name have identical STANDALONE translations (each instance
+                re-created from its class and EFFECTIVE arguments -- constructor arguments overlaid with set_param --
+                and translated as a top of its own); the module named at every instantiation site has the instance's
+                own ports (names, widths, dims; SV) and the instance's standalone code; a design the translator refuses
+                with "same module name" must really contain two instances of equal identity (class name + parameter
+                images) and different hardware -- refusing a design whose components all differ in class name or
+                parameters is a violation (legal-design-refused).
 """
 import hashlib, importlib, inspect, itertools, json, os, re, subprocess, sys, time
 
@@ -57,7 +63,7 @@ ASSUMPTIONS = [
 RULE = ('names: class name x 0-9 parameters drawn from ints, negative ints, bools, None, strings (identifier-like, with blanks / '
         '<>.[] / other punctuation), Bits values, Bits types, generated bitstruct classes, floats, tuples, lists; a case = one '
         '(class, parameter list); designs: c13_gen (3-8 top-level instances out of 19 templates incl. stdlib, 2-3 levels, shuffled '
-        'identifier pool), 9 stdlib/example designs, 12 labelled aliasing probe streams; a case = (design, backend); non-trivial = '
+        'identifier pool), 9 stdlib/example designs, 19 labelled probe streams (c13_gen.ALIAS_STREAMS: same class name, str() images, long / special / non-identifier / newline-terminated / hash-equal parameters, set_param, bitstruct subclass, same-named structs, nested collisions, placeholder child with explicit_module_name, sibling-internal structs, object repr); a case = (design, backend); non-trivial = '
         'the design has >= 2 instances sharing a module name or >= 3 modules; distinct = distinct source text')
 
 REPO = os.environ.get('PV_REPO', '/repo')     # tools/try_seed.sh points the checks at a scratch worktree
